@@ -77,6 +77,8 @@ func (H) Generate(prop, tier string, seed uint64) *simkit.Plan {
 		return genC09(tier, seed)
 	case "C07":
 		return genC07(tier, seed)
+	case "C06":
+		return genC06(tier, seed)
 	}
 	panic("clustersim: no generator for " + prop)
 }
@@ -94,6 +96,8 @@ func (H) Execute(t *testing.T, plan *simkit.Plan, run *simkit.Run) {
 		execC09(plan, run)
 	case "C07":
 		execC07(plan, run)
+	case "C06":
+		execC06(plan, run)
 	default:
 		panic("clustersim: no executor for " + plan.Property)
 	}
